@@ -4,6 +4,7 @@ package server
 
 import (
 	"encoding/json"
+	"net/http"
 	"os"
 	"strconv"
 	"strings"
@@ -55,6 +56,8 @@ func init() {
 					strs = append(strs, v)
 				case int:
 					strs = append(strs, strconv.Itoa(v))
+				case *http.Request:
+					strs = append(strs, v.Header.Get("X-Verif-Req"))
 				case error:
 					if v != nil {
 						strs = append(strs, v.Error())
